@@ -399,6 +399,7 @@ pub fn run(ctx: &mut Ctx) {
         for st in proj.steps.iter().filter(|s| s.rule == "rw") {
             clock += 1; ops.push(Op::W(st.impl_.last().unwrap().clone(), clock, b"cache".to_vec())); ctx.count("rw_steps");
         }
+        for _ in proj.steps.iter().filter(|s| s.rule == "split") { ctx.count("split_steps"); }
         let has_p0 = proj.steps.iter().any(|s| s.outs.iter().any(|o| o == "p0"));
         if has_p0 { clock += 1; ops.push(Op::W("p0".into(), clock, b"cache v1".to_vec())); ctx.count("with_phony_declared_source"); }
         for i in 0..NHDR { if !rng.chance(1, 8) { clock += 1; ops.push(Op::W(format!("h{}", i), clock, format!("hdr{}", i).into_bytes())); } }
